@@ -201,6 +201,20 @@ def auto_layout(names, seqs):
             "ingaps": [None, None, None, None, "late", "late", "all", "tail"][(h // 90) % 8], "ingap_from": (h // 720) % 70, "ingap_seed": h % 9973}
 
 
+def auto_headers(names, seqs):
+    """For checks that do not look at names: one case in five gives one record (chosen by the content) a FASTA header line of
+    300 .. 70000 characters - words, digits, blanks, letters of every kind - as database exports have them."""
+    import zlib
+    h = zlib.crc32(("\x02".join(seqs)).encode("latin-1", "replace"))
+    if h % 5 or not names:
+        return list(names)
+    k = (h // 5) % len(names)
+    L = [300, 1100, 4200, 8300, 16500, 70000][(h // 500) % 6]
+    out = list(names)
+    out[k] = (names[k] + " family member variant KLH " + "hypothetical protein ACGT kinase-like DEFHIKLMPQRSVWY 42 " * (L // 50 + 1))[:L]
+    return out
+
+
 def align_named(names, seqs, cfg, variant="asan", env=None, hook=None, delays=None, codes=False, width=0, layout=None):
     """One FASTA file -> read+run+dump. Returns dict(names, rows, biotype, alnlen, run)."""
     if layout is None and width == 0:
